@@ -138,6 +138,23 @@ theorem f32_leaf_sizes_bounded (budget : Nat) (es : List Entry) (x0 : F32.F32) (
     ∀ t ∈ F32.triedF ser budget es fuel x0, t ≤ max (F32.trunc x0) (2 * es.length) :=
   F32.triedF_bounded ser budget es hsmall fuel x0 hn h12
 
+/-- the initial value `float32(len(entries)) / 3500`, clamped to 4096 (both roundings to nearest
+    even computed exactly by `F32.init`), is a normal float32 ≥ 4096 for every entry count -/
+theorem f32_init_ok (n : Nat) : F32.Normal (F32.init n) ∧ 12 ≤ (F32.init n).e := F32.init_ok n
+
+/-- **`optimizeDirectories` as written terminates**: initial value, growth step and truncation are
+    the code's own float32 arithmetic; no hypothesis about the schedule, none about the entry count.
+    What remains assumed is only that a directory of at most one entry fits the budget. -/
+theorem opt_terminates_code (budget : Nat) (es : List Entry)
+    (hsmall : ∀ l : List Entry, l.length ≤ 1 → (ser l).length ≤ budget) :
+    ∃ b, F32.optimizeF ser budget es (F32.init es.length) (es.length + 1) = some b ∧ OptResult ser budget es b :=
+  opt_terminates_f32 ser budget es (F32.init es.length) (F32.init_ok _).1 (F32.init_ok _).2 hsmall
+
+-- tests against values printed by Go (`math.Float32bits` of the clamped initial value)
+example : F32.bits (F32.init 100) = 1166016512 := by decide
+example : F32.bits (F32.init 14336001) = 1166016513 := by decide
+example : F32.bits (F32.init 20000000) = 1169330761 := by decide
+
 /-- the clamp value 4096 is such an initial value (it is THE initial value for every list of fewer
     than 14 336 000 entries, since then `float32(n)/3500 ≤ 4096`) -/
 theorem f4096_ok : F32.Normal F32.f4096 ∧ 12 ≤ F32.f4096.e ∧ F32.trunc F32.f4096 = 4096 := by
